@@ -337,6 +337,15 @@ fn classify(sc: &Scenario, a: &Projection, refs: &[Projection]) -> String {
             };
         }
     }
+    // Same replies and same final records / users as some order, but a penalty that order handed to the node is missing:
+    // the request overlapped the block that purged its owner (the records are equal, so the owner is gone in both): the
+    // receipt was given, the response was skipped because the insert failed. Same root as the open C02 finding (the
+    // gatekeeper's purge does not serialise with the request's critical section).
+    if refs.iter().any(|r| {
+        same_writes(r) && r.users == a.users && r.records == a.records && a.submitted_ok.is_subset(&r.submitted_ok) && a.submitted_ok != r.submitted_ok
+    }) {
+        return "receipt_without_response_owner_purged_meanwhile".into();
+    }
     if refs.iter().any(same_state) {
         return "write_reply_unreachable".into();
     }
